@@ -141,6 +141,16 @@ static int cmd_verify(void) {
 		rc = KSI_Policy_create(c, rules, "custom", &custom); if (rc != KSI_OK) { kx_out(" stage=policy-create"); return rc; }
 		pol = custom;
 	}
+	if (!strncmp(tok[3], "fb:", 3)) {
+		/* fb:<primary>:<fallback>: a clone of the predefined primary policy with the predefined fallback policy attached */
+		char buf[128], *sep; snprintf(buf, sizeof buf, "%s", tok[3] + 3); sep = strchr(buf, ':');
+		if (!sep) { kx_out(" stage=fb-syntax"); return -2; }
+		*sep = 0;
+		if (!policy_by_name(buf) || !policy_by_name(sep + 1)) { kx_out(" stage=fb-unknown-policy"); return -2; }
+		rc = KSI_Policy_clone(c, policy_by_name(buf), &custom); if (rc != KSI_OK) { kx_out(" stage=policy-clone"); return rc; }
+		rc = KSI_Policy_setFallback(c, custom, policy_by_name(sep + 1)); if (rc != KSI_OK) { KSI_Policy_free(custom); kx_out(" stage=set-fallback"); return rc; }
+		pol = custom;
+	}
 	if (!api) api = "verifier";
 	if (doc) { size_t n; unsigned char *b = kx_hexarg(doc, &n); rc = KSI_DataHash_fromImprint(c, b, n, &dh); vh_exact_free(b, n); if (rc != KSI_OK) { KSI_Policy_free(custom); kx_out(" stage=dochash"); return rc; } }
 	if (pub) { rc = KSI_PublicationData_fromBase32(c, pub, &pd); if (rc != KSI_OK) { KSI_DataHash_free(dh); KSI_Policy_free(custom); kx_out(" stage=pubstring"); return rc; } }
@@ -334,6 +344,35 @@ pp_done:
 sb_done:
 		KSI_SignatureBuilder_free(b);
 		return rc;
+	}
+	if (!strcmp(c0, "treebuild")) {
+		/* treebuild <c> <nleaves> <seed>: tree builder life cycle; a failing call is repeated once on the same builder. Prints root, level and per leaf the chain shape and whether it leads to the root */
+		KSI_CTX *c = ctxs[atoi(tok[1])]; int n = atoi(tok[2]); unsigned seed = (unsigned)atoi(tok[3]); KSI_TreeBuilder *b = NULL; KSI_TreeLeafHandle *lh[64]; int i, rc, firsterr = 0, nfail = 0;
+		if (n > 64) n = 64; memset(lh, 0, sizeof lh);
+		rc = KSI_TreeBuilder_new(c, KSI_HASHALG_SHA2_256, &b); if (rc) { kx_out(" stage=new"); return rc; }
+		for (i = 0; i < n; i++) { KSI_DataHash *dh = NULL; unsigned char data[8]; memcpy(data, &seed, 4); memcpy(data + 4, &i, 4);
+			rc = KSI_DataHash_create(c, data, 8, KSI_HASHALG_SHA2_256, &dh); if (rc) { if (!firsterr) firsterr = rc; nfail++; rc = KSI_DataHash_create(c, data, 8, KSI_HASHALG_SHA2_256, &dh); if (rc) goto tb_done; }
+			rc = KSI_TreeBuilder_addDataHash(b, dh, 0, &lh[i]);
+			if (rc) { if (!firsterr) firsterr = rc; nfail++; if (lh[i]) { kx_out(" handle_on_error=%d", i); KSI_TreeLeafHandle_free(lh[i]); lh[i] = NULL; } rc = KSI_TreeBuilder_addDataHash(b, dh, 0, &lh[i]); }
+			KSI_DataHash_free(dh); if (rc) goto tb_done; }
+		rc = KSI_TreeBuilder_close(b); if (rc) { if (!firsterr) firsterr = rc; nfail++; rc = KSI_TreeBuilder_close(b); } if (rc) goto tb_done;
+		if (b->rootNode && b->rootNode->hash) { const unsigned char *imp; size_t il; KSI_DataHash_getImprint(b->rootNode->hash, &imp, &il); kx_outhex("root", imp, il); kx_out(" rootlevel=%u", b->rootNode->level); }
+		kx_out(" leaves=");
+		for (i = 0; i < n; i++) { KSI_AggregationHashChain *ch = NULL; KSI_DataHash *out = NULL; int lvl = 0; KSI_uint64_t shape = 0; int r2;
+			r2 = KSI_TreeLeafHandle_getAggregationChain(lh[i], &ch);
+			if (r2) { if (!firsterr) firsterr = r2; nfail++; r2 = KSI_TreeLeafHandle_getAggregationChain(lh[i], &ch); }
+			if (r2) { rc = r2; goto tb_done; }
+			r2 = KSI_AggregationHashChain_aggregate(ch, 0, &lvl, &out);
+			if (r2) { if (!firsterr) firsterr = r2; nfail++; r2 = KSI_AggregationHashChain_aggregate(ch, 0, &lvl, &out); }
+			if (r2 == KSI_OK) { KSI_AggregationHashChain_calculateShape(ch, &shape); kx_out("%llx%s,", (unsigned long long)shape, (b->rootNode && KSI_DataHash_equals(out, b->rootNode->hash)) ? "" : "!MISMATCH"); }
+			KSI_DataHash_free(out); KSI_AggregationHashChain_free(ch);
+			if (r2) { rc = r2; goto tb_done; } }
+		kx_out(" completed=1");
+tb_done:
+		kx_out(" failed_calls=%d", nfail);
+		for (i = 0; i < 64; i++) KSI_TreeLeafHandle_free(lh[i]);
+		KSI_TreeBuilder_free(b);
+		return rc ? rc : firsterr;
 	}
 	if (!strcmp(c0, "siginfo")) {
 		KSI_Signature *s = sigs[atoi(tok[1])]; KSI_DataHash *h = NULL; KSI_Integer *t = NULL; const unsigned char *imp; size_t il; int rc;
